@@ -52,6 +52,7 @@ APIS = {
     'baseline_style': lambda c: baseline_style.check_baseline_style(c, ignore=[]) if False else _baseline(c),
     'legacy_codegen': lambda c: legacy_codegen.codegen_dot_syntax(c).lines(),
     'new_codegen': lambda c: new_codegen.new_codegen(c),
+    'auto_config_codegen': lambda c: __import__('fiddle.codegen.codegen', fromlist=['x']).auto_config_codegen(c),
     'select-iterate': lambda c: list(selectors.select(c, pool.Cls)),
     'select-get': lambda c: list(selectors.select(c, pool.fb).get('x')),
     'select-tag-iterate': lambda c: list(selectors.select(c, tag=pool.TagA)),
@@ -93,9 +94,20 @@ def long_config():
                     r={'k': 'z' * 60, 't': tuple(range(20))})
 
 
+def partial_tree():
+  mlp = fdl.Config(pool.Cls, 1)
+  return fdl.Config(pool.fc, fdl.Partial(pool.fc, mlp, q=2), q=fdl.Partial(pool.fc, mlp), r=[fdl.Partial(pool.fb)])
+
+
+def tags_only():
+  return fdl.Config(pool.fc, fdl.Config(pool.fc, p=pool.TagA.new(), q=pool.TagB.new()), q=1)
+
+
 def get_factories():
   P = dict(pool.make_pool())
   P['long-values'] = long_config
+  P['partial-tree-shared'] = partial_tree
+  P['tags-without-values'] = tags_only
   return P
 
 
